@@ -13,7 +13,7 @@ from typing import Dict, List, Optional
 
 from .grammar import Grammar, PARSER
 from .model import AnalysisError, AnchorMissing, Model, dotted, find_assign, last_attr, mangle, unparse
-from .paths import paths, Ev
+from .paths import paths, Ev, calls_on_path
 
 LOWER = "nsl/passes/LowerToIR.py"
 ASTF = "nsl/ast/__init__.py"
@@ -391,6 +391,30 @@ def check_emit_receivers(model: Model, col, rule: str):
                       "; ".join(f"`{k[1]}` adds to a block that need not be the current one (the visited child may have started new blocks): the instruction lands in the middle of other control flow"
                                 for k in sorted(bad)[:2]), LOWER, (list(bad.values()) or [h])[0])
     col.floor(rule, "handlers that add instructions", n, 12)
+
+
+def check_function_bracket(model: Model, col, rule: str):
+    """Lowering a function is bracketed by OnEnterFunction ... OnLeaveFunction on every path, and leaving computes the
+    function's use lists (the optimisation passes rewire users through them)."""
+    lv = model.cls(LOWER, "LowerToIRVisitor")
+    vf = lv.own_method("v_Function")
+    ok_ = True
+    why = ""
+    np_ = 0
+    for evs, status in paths(vf.body):
+        if status == "raise":
+            continue
+        np_ += 1
+        seq = [last_attr(c) for c in calls_on_path(evs) if last_attr(c) in ("OnEnterFunction", "OnLeaveFunction")]
+        if seq != ["OnEnterFunction", "OnLeaveFunction"]:
+            ok_, why = False, f"a path through v_Function calls {seq}"
+    col.check(ok_ and np_ > 0, rule, f"{LOWER}::v_Function enter/leave bracket", "OnEnterFunction ... OnLeaveFunction on every path",
+              why + ": without OnLeaveFunction the function's use lists are never computed (optimisation passes then find no users to rewire) and the context keeps the function open", LOWER, vf)
+    ctx = next((c for c in model.classes.values() if c.file == LOWER and c.name.endswith("Context")), None)
+    olf = ctx.own_method("OnLeaveFunction") if ctx else None
+    upd = [c for c in ast.walk(olf) if isinstance(c, ast.Call) and last_attr(c) == "UpdateUses"] if olf else []
+    col.check(bool(upd), rule, f"{LOWER}::Context.OnLeaveFunction computes the use lists", "function.UpdateUses()",
+              "OnLeaveFunction does not call UpdateUses: the lowered function has empty use lists", LOWER, olf or vf)
 
 
 def check_scope_tables(model: Model, col, rule: str):
